@@ -381,5 +381,18 @@ func runTransfers(r *hx.Run, rnd *hx.Rand, cfg hx.Config) {
 			sweepTransfer(r, p, transit, i, rnd.Fork(), cfg)
 			sweepParts(r, p, transit, i, rnd.Fork(), cfg)
 		}
+		if p.wrapper == "bzip2" && !r.Stop() {
+			sfx := ".ubuntu.blocks.bz2"
+			if p.name != "ubuntu-bzip2" {
+				sfx = ".oracle.blocks.bz2"
+			}
+			files := loadCorpus(cfg.Corpus, sfx)
+			if len(files) == 0 {
+				r.Count("bz2-skipped-no-corpus:" + p.name)
+			}
+			for i, file := range files {
+				sweepBz2Blocks(r, p, file, i, rnd.Fork(), cfg)
+			}
+		}
 	}
 }
